@@ -26,7 +26,7 @@ def handle (line : String) : String :=
   | "cursor" :: _ | "spec" :: _ | "load" :: _ | "loadframe" :: _ | "iter" :: _ => handleCursor ws
   | "traj" :: _ | "key" :: _ => handleTraj ws
   | "itopsubset" :: _ | "itopsubsetl" :: _ | "itopjoin" :: _ | "itopnested" :: _ | "topsubset" :: _ | "topjoin" :: _ | "toprows" :: _ | "toppdb" :: _ | "topeqhash" :: _ => handleTopo ws
-  | "writer" :: _ | "save" :: _ | "fsys" :: _ | "fsave" :: _ | "joindiscard" :: _ => handleWriter ws
+  | "writer" :: _ | "save" :: _ | "fsys" :: _ | "fsave" :: _ | "joindiscard" :: _ | "topedit" :: _ => handleWriter ws
   | "sel" :: _ | "selraw" :: _ => handleSel ws
   | "mic" :: _ => handleMic ws
   | "cell" :: _ | "cellops" :: _ => handleCell ws
